@@ -325,8 +325,14 @@ def replay_failure(ctx, res, f):
     info = {"property": ctx.prop, "unit": res.unit, "obligation": o.id, "backend": o.backend,
             "verifier_output": o.detail[:6000], "found_input": False}
     try:
-        if o.backend == "kani":
-            vals, txt = kani_run.playback(f["crate"], f["harness"].name.split("::")[-1], extra=f["job"].extra)
+        # concrete playback re-runs CBMC with trace generation (minutes per harness): at most 3 per unit and check run
+        budget = getattr(ctx, "_playbacks", {})
+        ctx._playbacks = budget
+        if o.backend == "kani" and budget.get(res.unit, 0) >= 3:
+            info["concrete_playback"] = "skipped: playback budget of 3 harnesses per unit used up (see the other replay files of this unit)"
+        elif o.backend == "kani":
+            budget[res.unit] = budget.get(res.unit, 0) + 1
+            vals, txt = kani_run.playback(f["crate"], f["harness"].name.split("::")[-1], timeout=420, extra=f["job"].extra)
             info["concrete_playback"] = txt[-3000:] if txt else ""
             if vals is not None:
                 rp = kani_run.native_replay(f["crate"], f["harness"].name, vals)
